@@ -325,7 +325,13 @@ func c09Cadence(c *core.Case, o *core.Outcome) {
 	defer cancel()
 	var started atomic.Int64
 	scenario := func(t *f1testing.T) f1testing.RunFn {
-		return func(t *f1testing.T) { started.Add(1) }
+		return func(t *f1testing.T) {
+			started.Add(1)
+			if p.Spec.MaxIterations > 0 {
+				// keeps the limit out of reach for the whole run, however long the ticks take to report what they discard
+				time.Sleep(time.Millisecond)
+			}
+		}
 	}
 	type ev struct {
 		k int
@@ -383,6 +389,11 @@ func c09Cadence(c *core.Case, o *core.Outcome) {
 			sum += e.v
 		}
 		su, fa, dr := resultCounts(r)
+		if p.Spec.MaxIterations > 0 && su+fa >= p.Spec.MaxIterations {
+			// requests that arrive after the limit was reached are abandoned by design, not dropped: the sum says nothing then
+			o.Inconc("the limit of %d iterations was reached during the run (%s)", p.Spec.MaxIterations, p.Desc)
+			return
+		}
 		if int(su+fa+dr) != sum {
 			o.Violate("sum:"+p.Desc, "evaluations before the stop returned %v (sum %d) but %d iterations were started and %d dropped (total %d): a tick's value did not reach the pool unchanged (%s)", p.Values[:p.StopAt], sum, su+fa, dr, su+fa+dr, p.Desc)
 			return
